@@ -410,8 +410,9 @@ def plan_gc(run, prop, tier):
 
 
 def cfg_world(cap, labels=("a",), vals=("x",), nh=2, props=("FreshIds", "OnlyReadsShrink", "CopyIsExact", "Independent", "SliceExact",
-                                                                 "MergeOnlyAdds", "MergeCarriesAll", "MergeTreeInjective")):
+                                                                 "MergeOnlyAdds", "MergeCarriesAll", "MergeTreeInjective"), with_file=False):
     s = (f"SPECIFICATION WSpec\nVIEW wview\nCONSTANTS Cap = {cap} Labels = {tla_set(labels)} Vals = {tla_set(vals)} NHandles = {nh} "
+         f"WithFile = {'TRUE' if with_file else 'FALSE'} "
          "MaxN = 1 MaxGroups = 14 MaxGroupSize = 16\nINVARIANT WTypeOK\nINVARIANT IssuedBelowPos\n")
     for p_ in props:
         s += f"PROPERTY {p_}\n"
@@ -430,6 +431,16 @@ def e1_world(run, acc, tier):
     if r2["ok"]:
         raise ToolError("vacuity: World never produced a merge that reports Err")
     acc.add_e1("World[probe: every merge reports Ok] (must be rejected)", r2, expect_error=True)
+    # the checkpoint file as a snapshot in time (save now, load later: one handle, so that load() is a roll-back)
+    fprops = ("FreshIds", "OnlyReadsShrink", "Independent", "FileIsSnapshot")
+    r3 = vlib.model_check(run, "World", cfg_world(2, nh=1, props=fprops, with_file=True))
+    acc.add_e1("World[2 ids, 1 handle + the checkpoint file: save now, load later]", r3)
+    if any(r3["actions"].get(a, (0, 0))[1] == 0 for a in ("WSave", "WLoad")):
+        raise ToolError("vacuity: WSave / WLoad never taken")
+    r4 = vlib.model_check(run, "World", cfg_world(2, nh=1, props=("ProbeLoadChangesNothing",), with_file=True), must_hold=False, coverage=False)
+    if r4["ok"]:
+        raise ToolError("vacuity: no load() in World returned a graph other than the one its handle held")
+    acc.add_e1("World[probe: load() changes nothing] (must be rejected)", r4, expect_error=True)
 
 
 def twin_plan(tier, s):
